@@ -102,8 +102,8 @@ def c18(ctx):
     shared = [("Lc,Lo", 2, 2500, False), ("Lp,Lq", 2, 2500, False), ("Lv,Ll", 2, 2000, False), ("Lu,Ll", 2, 2000, False),
               ("Ls,Lg", 2, 2000, False)] if quick else \
              [("Lc,Lo", 2, 30000, False), ("Lc,Lo", 2, 20000, True), ("Lp,Lq", 2, 20000, True), ("Lr,Lx", 2, 20000, False),
-              ("Lv,Ll", 2, 20000, False), ("Lu,Ll", 2, 20000, False), ("Lu,Lo", 2, 20000, False), ("Ls,Lg", 2, 30000, False), ("Ls,Lg", 1, 20000, True), ("Lc,Lv,Ll", 2, 20000, False), ("Lp,Lq,Lr", 2, 20000, False), ("Lr,Lx", 1, 10000, True)]
-    tc_shared = dict(Threads=THREADS, PinSyms='{"P0", "P1", "P2", "PX"}', InitPin='"P0"',
+              ("Lv,Ll", 2, 20000, False), ("Lu,Ll", 2, 20000, False), ("Lu,Lo", 2, 20000, False), ("Ls,Lg", 2, 30000, False), ("Ls,Lg", 1, 20000, True), ("Lz,Ly", 2, 20000, False), ("Lz,Lo", 2, 20000, False), ("Lc,Lv,Ll", 2, 20000, False), ("Lp,Lq,Lr", 2, 20000, False), ("Lr,Lx", 1, 10000, True)]
+    tc_shared = dict(Threads=THREADS, PinSyms='{"P0", "P1", "P2", "PX", "SO"}', InitPin='"P0"',
                      Dev="{" + ", ".join('"%s"' % d for d in sorted(known) if d == "LogoutSplit") + "}")
     combos = combos + [c + (True,) for c in shared]
     only = [x for x in os.environ.get("VERIF_ONLY", "").split(";") if x]          # development runs
